@@ -112,3 +112,53 @@ func vParseStill(b []byte) vStill {
 type vBuf struct{ b []byte }
 
 func (v *vBuf) Write(p []byte) (int, error) { v.b = append(v.b, p...); return len(p), nil }
+
+// ---- builders (concrete lengths, symbolic contents) ----
+
+func vChunkBytes(tag string, payload []byte) []byte {
+	n := len(payload)
+	b := []byte{tag[0], tag[1], tag[2], tag[3], byte(n), byte(n >> 8), byte(n >> 16), byte(n >> 24)}
+	b = append(b, payload...)
+	if n%2 != 0 {
+		b = append(b, 0)
+	}
+	return b
+}
+
+func vRIFF(chunks ...[]byte) []byte {
+	n := 4
+	for _, c := range chunks {
+		n += len(c)
+	}
+	b := []byte{'R', 'I', 'F', 'F', byte(n), byte(n >> 8), byte(n >> 16), byte(n >> 24), 'W', 'E', 'B', 'P'}
+	for _, c := range chunks {
+		b = append(b, c...)
+	}
+	return b
+}
+
+func vLE24(v int) []byte { return []byte{byte(v), byte(v >> 8), byte(v >> 16)} }
+
+func vVP8X(flags byte, cw, ch int) []byte {
+	p := []byte{flags, 0, 0, 0}
+	p = append(p, vLE24(cw-1)...)
+	p = append(p, vLE24(ch-1)...)
+	return vChunkBytes("VP8X", p)
+}
+
+func vANIM(bg uint32, loop int) []byte {
+	return vChunkBytes("ANIM", []byte{byte(bg), byte(bg >> 8), byte(bg >> 16), byte(bg >> 24), byte(loop), byte(loop >> 8)})
+}
+
+func vANMF(x, y, w, h, dur int, flags byte, sub ...[]byte) []byte {
+	p := append([]byte{}, vLE24(x/2)...)
+	p = append(p, vLE24(y/2)...)
+	p = append(p, vLE24(w-1)...)
+	p = append(p, vLE24(h-1)...)
+	p = append(p, vLE24(dur)...)
+	p = append(p, flags)
+	for _, s := range sub {
+		p = append(p, s...)
+	}
+	return vChunkBytes("ANMF", p)
+}
